@@ -12,7 +12,7 @@ and the same again for every fourth model under non-default Configuration().boun
 (the model is built, saved and loaded under that configuration; the singleton is restored in a finally block).
 
 Checks (statement of C11, nothing more)
-  * loading does not raise for a model that could be saved;
+  * saving does not raise (every generated model is a valid model without NaN) and loading does not raise;
   * obs(load(save(m))) == obs(m), exact: obs = bcc.views.snapshot (ids, bounds incl. infinities, stoichiometry, gene rules as
     truth tables, genes, names, subsystems, notes, annotations, formulas, charges, compartments, and the LP read back from
     GLPK: variables, constraints, objective coefficients, direction; the solver-side numbers to 15 significant digits, see
@@ -50,16 +50,16 @@ KNOWN_KEYS = set()
 # gen_io.build(family, "fixed", i) of FIXED_MODELS (all 16 variants; the first two of each family also under the two non-default
 # configurations); members of a class met in the seeded part carry the witness "random:<class>"
 INPUT_CLASS_KEYS = {"json:direction-lost", "json:bounds-above-default", "yaml:second-trip-float-digits"}
-FIXED_MODELS = {"min": 6, "precision": 8, "above": 4}
+FIXED_MODELS = {"min": 6, "precision": 8, "above": 4, "boundsgrid": 3, "noobjective": 4}
 SEEDED_CAP = 2000        # distinct witnesses kept per key from the seeded part (the fixed part is never capped)
 
 SKIP_ASPECTS = ("groups", "group-name", "group-kind", "group-members", "group-notes", "group-annotation")
 CONFIGS = [(-7.0, 7.0), (-10000.0, 10000.0)]
 # the first N cases of each C10 family (YAML makes a case ~5x dearer than in C10)
-PER_FAMILY = {"quick": {"plain": 220, "min": 80, "awkward": 220, "above": 30, "digits": 16, "genegroup": 12, "noname": 12,
-                        "nocharge": 12, "precision": 70, "emptyreaction": 10, "noobjective": 10},
-              "thorough": {"plain": 1500, "min": 500, "awkward": 1500, "above": 150, "digits": 60, "genegroup": 40, "noname": 40,
-                           "nocharge": 40, "precision": 400, "emptyreaction": 30, "noobjective": 30}}
+PER_FAMILY = {"quick": {"plain": 400, "min": 150, "awkward": 400, "above": 40, "digits": 24, "genegroup": 16, "noname": 16,
+                        "nocharge": 16, "precision": 120, "emptyreaction": 12, "noobjective": 12, "boundsgrid": 30},
+              "thorough": {"plain": 3000, "min": 1000, "awkward": 3000, "above": 300, "digits": 100, "genegroup": 60, "noname": 60,
+                           "nocharge": 60, "precision": 800, "emptyreaction": 40, "noobjective": 40, "boundsgrid": 200}}
 YAML_VARIANTS = [("yaml-str", False, None), ("yaml-str", True, None), ("yaml-path", False, None), ("yaml-path", True, None),
                  ("yaml-handle", False, None)]
 
@@ -213,7 +213,9 @@ def check_model(model, variants, tmp, tag, replay_base=None, case_id="?", seeded
         try:
             art = save(model, variant, sort, extra, path)
         except Exception as e:  # noqa
-            continue      # could not be saved: outside the statement ("a model that could be saved")
+            # every generated model is a valid model with finite-or-infinite (never NaN) numbers: it must be savable
+            add(f"{fmt}:save-raises-{type(e).__name__}", f"saving raised {_exc_text(e)}", v)
+            continue
         try:
             m1 = load(art, variant)
         except Exception as e:  # noqa
